@@ -6,7 +6,7 @@ from mc.ref import refpsl
 
 PROP = "C13"
 SCHEMES = ["http", "https"]
-PORTS = ["", "8080"]
+PORTS = ["", "8080", "80", "443"]
 HOSTS = ["fr", "lemonde.fr", "www.lemonde.fr", "a.www.lemonde.fr", "xlemonde.fr", "evil.com", "fr.evil.com",
          "lemonde.fr.evil.com", "uk", "co.uk", "a.co.uk", "b.a.co.uk", "c.b.a.co.uk", "a.uk"]
 PATHS = ["", "/", "/a", "/a/", "/a/b", "/a/b/c", "/ab", "/a/bc"]
@@ -168,7 +168,8 @@ def run(chk):
     global _U, _ST
     U = universe()
     if chk.tier == "quick":
-        U = [u for u in U if not (u["scheme"] == "https" and u["port"])]
+        U = [u for u in U if not (u["scheme"] == "https" and u["port"] in ("8080", "80"))
+             and not (u["scheme"] == "http" and u["port"] == "443") and not (u["port"] in ("80", "443") and u["fragment"])]
     _U = U
     _ST = {sa: [stems_of(u, sa) for u in U] for sa in (False, True)}
     chk.rule.append(
